@@ -9,6 +9,7 @@ import (
 	"bytes"
 	"fmt"
 	"math/big"
+	"runtime"
 
 	"gitlab.com/yawning/secp256k1-voi/secec/bitcoin"
 
@@ -123,7 +124,12 @@ func runVerify(pk, msg, sig []byte) string {
 
 func register() {
 	mc.Register("key", func(d mc.D) string { return runKey(d.B("bytes")) })
-	mc.Register("verify", func(d mc.D) string { return runVerify(d.B("pk"), d.B("msg"), d.B("sig")) })
+	mc.Register("verify", func(d mc.D) string {
+		if d.I("gomaxprocs") == 1 {
+			defer runtime.GOMAXPROCS(runtime.GOMAXPROCS(1))
+		}
+		return runVerify(d.B("pk"), d.B("msg"), d.B("sig"))
+	})
 }
 
 type vc struct {
@@ -366,6 +372,22 @@ func main() {
 			R.Sample(c.cls, map[string]any{"pk": mc.Hex(c.pk), "msg_len": len(c.msg), "sig": mc.Hex(c.sig), "bip340_verify": want})
 		}
 	})
+	// the answer does not depend on the runtime configuration: the same cases (every 40th) on a scheduler restricted
+	// to ONE processor (a 1-vCPU machine; code that farms work out to goroutines must have a working serial path)
+	{
+		prev := runtime.GOMAXPROCS(1)
+		n1 := 0
+		for i := 0; i < len(cases); i += 40 {
+			c := cases[i]
+			n1++
+			R.T(1)
+			if m := mc.Safe(func() string { return runVerify(c.pk, c.msg, c.sig) }); m != "" {
+				R.Mismatch("verify/GOMAXPROCS=1/"+c.cls, "verify", m, mc.D{"pk": mc.Hex(c.pk), "msg": mc.Hex(c.msg), "sig": mc.Hex(c.sig), "class": c.cls, "gomaxprocs": 1})
+			}
+		}
+		runtime.GOMAXPROCS(prev)
+		R.Class("verify/cases repeated with GOMAXPROCS=1", int64(n1))
+	}
 	R.Expect("valid => accept", "R has odd y (s*G - e*P = R, x matches) => reject", "R = infinity (s = e*d) => reject", "n-s => reject", "signature length != 64 => reject", "valid (every message length) => accept", "key/accept", "key/reject")
 	R.Finish()
 }
